@@ -98,6 +98,8 @@ class Printer:
         self.may_throw = False
         self.protos = {}
         self.tmp = 0
+        self.src_cache = {}
+        self.default_file = None
 
     # ------------------------------------------------------------------ types
     def ctype_q(self, q):
@@ -268,6 +270,10 @@ class Printer:
                     q = ot.get('qualType', '')
                     if self.is_modelled_struct(ot) and not re.search(r'\bconst\b', q):
                         raise Unsupported(f'non-const member call {me.get("name")} on modelled object inside an erased expression ({what})')
+                for a in x['inner'][1:]:
+                    at = a.get('type', {})
+                    if a.get('valueCategory') == 'lvalue' and self.is_modelled_struct(at) and not re.search(r'\bconst\b', at.get('qualType', '')):
+                        raise Unsupported(f'modelled object passed by possibly mutable reference inside an erased expression ({what})')
             if k in ('CallExpr', 'CXXOperatorCallExpr'):
                 for a in x['inner'][1:]:
                     at = a.get('type', {})
@@ -370,6 +376,14 @@ class Printer:
             return f'{base}.{n["name"]}'
         if k in ('BinaryOperator', 'CompoundAssignOperator'):
             op = n['opcode']
+            if (op == '=' or k == 'CompoundAssignOperator') and self.opaque:
+                l = unwrap(inner[0])
+                if l.get('kind') in ('CXXOperatorCallExpr', 'CXXMemberCallExpr', 'CallExpr') and self.any_opaque_operand(
+                        l['inner'][1:] + ([l['inner'][0]['inner'][0]] if l['kind'] == 'CXXMemberCallExpr' and l['inner'][0].get('inner') else [])):
+                    probe = self.havoc_value(l, 'store into an element of erased numerics')
+                    if re.fullmatch(r'nv_nondet_\w+\(\)|nv_opaque_value\(\)', probe):
+                        self.check_pure(inner[1], 'value stored into erased numerics')
+                        return '((void)0)'
             if self.uf_float and strip_cv(qual(n['type'])) in ('double', 'float'):
                 # floating-point arithmetic is kept uninterpreted (congruence only): protocol proofs then hold for
                 # every interpretation of + - * /, IEEE included, and nothing is bit-blasted
@@ -413,6 +427,24 @@ class Printer:
             return self.expr(inner[0]) if inner else self.default_value(self.ctype(n['type']))
         raise Unsupported(f'expression kind {k} (target {self.cname})')
 
+    def template_text(self, ref, name):
+        """explicit template arguments of a call as written in the source (`lpNorm<Eigen::Infinity>` -> '|<Eigen::Infinity>')"""
+        try:
+            rng = ref.get('range', {})
+            b, e = rng.get('begin', {}), rng.get('end', {})
+            b = b.get('spellingLoc', b.get('expansionLoc', b))
+            e = e.get('spellingLoc', e.get('expansionLoc', e))
+            f = b.get('file') or self.default_file
+            if f is None or 'offset' not in b or 'offset' not in e:
+                return ''
+            if f not in self.src_cache:
+                self.src_cache[f] = open(f, 'rb').read()
+            txt = self.src_cache[f][b['offset']: e['offset'] + e.get('tokLen', 0)].decode(errors='replace')
+            m = re.search(re.escape(name) + r'\s*<(.*)>\s*$', txt, re.S)
+            return f'|<{re.sub(chr(92) + "s+", "", m.group(1))}>' if m else ''
+        except OSError:
+            return ''
+
     def member_call(self, n):
         inner = n['inner']
         me = inner[0]
@@ -422,7 +454,7 @@ class Printer:
         obj = me['inner'][0]
         objt = strip_cv(qual(obj['type']))
         lit = string_literal_of(inner[1]) if len(inner) > 1 else None
-        key = f'{name}|{objt}' + (f'|"{lit}"' if lit is not None else '')
+        key = f'{name}|{objt}' + (f'|"{lit}"' if lit is not None else '') + f'|#{len(inner) - 1}' + self.template_text(me, name)
         m = self.lookup(self.members, key)
         if m is None:
             if self.is_opaque(obj.get('type')) or self.any_opaque_operand(inner[1:]):
@@ -442,7 +474,7 @@ class Printer:
             raise Unsupported('indirect call')
         a0 = strip_cv(qual(inner[1]['type'])) if len(inner) > 1 else ''
         lit = string_literal_of(inner[1]) if len(inner) > 1 else None
-        key = f'{rd["name"]}|{rd["type"]["qualType"]}|{a0}' + (f'|"{lit}"' if lit is not None else '')
+        key = f'{rd["name"]}|{rd["type"]["qualType"]}|{a0}' + (f'|"{lit}"' if lit is not None else '') + f'|#{len(inner) - 1}'
         m = self.lookup(self.calls, key)
         if m is None:
             if self.any_opaque_operand(inner[1:]):
@@ -516,6 +548,12 @@ class Printer:
         if ty.endswith('&'):
             if not init:
                 raise Unsupported('reference without initialiser')
+            if c == 'struct nv_opaque*' and unwrap(init[0]).get('kind') not in ('DeclRefExpr', 'MemberExpr'):
+                # reference to an element / temporary of erased numerics: bind it to a fresh unit object
+                self.check_pure(init[0], f'initialiser of erased reference {v["name"]}')
+                self.tmp += 1
+                self.erased.append(f'line {v.get("loc", {}).get("line", "?")}: erased reference {v["name"]} (opaque numerics)')
+                return f'{p}struct nv_opaque nv_ref{self.tmp}; {c} {v["name"]} = &nv_ref{self.tmp};\n'
             return f'{p}{c} {v["name"]} = {self.addr(init[0])};\n' + self.after(p)
         if not init:
             return f'{p}{c} {v["name"]};\n'
